@@ -88,6 +88,8 @@ class Expr:
     def local(self, l, depth=0):
         b = self.body
         name = b.locals[l].get("name")
+        if b.locals[l].get("as_upvar"):
+            return ("upvar", b.locals[l]["as_upvar"])
         if 1 <= l <= b.argc and not b.defs().get(l):
             return ("param", l, name or "_%d" % l)
         if depth >= self.maxdepth:
